@@ -6,6 +6,7 @@ import SpecModel.Codec.Norm
 import SpecModel.Codec.Gob
 import SpecModel.Codec.Idem
 import SpecModel.Codec.GobSafe
+import SpecModel.Codec.Perm
 
 namespace SpecModel.CodecOps
 open SpecModel SpecModel.Codec
@@ -36,12 +37,19 @@ def gobSafeOp (j : Lean.Json) : Except String String := do
   let doc ← Wire.jsonField j "doc"
   pure (if gobSafeB doc then "safe" else "unsafe")
 
+/-- `{"op":"tidy","doc":<wire JSON>}` ↦ `tidy` | `untidy`: the executable test (`tidyB`, proved to imply `Tidy`) for
+the hypothesis of the order-independence theorem. A reordering of a tidy document is tidy. -/
+def tidyOp (j : Lean.Json) : Except String String := do
+  let doc ← Wire.jsonField j "doc"
+  pure (if tidyB doc then "tidy" else "untidy")
+
 def op (name : String) (j : Lean.Json) : Except String String :=
   match name with
   | "norm" => normOp j
   | "gob" => gobOp j
   | "clean" => cleanOp j
   | "gobsafe" => gobSafeOp j
+  | "tidy" => tidyOp j
   | _ => .error s!"bad-op:unknown {name}"
 
 end SpecModel.CodecOps
